@@ -241,3 +241,250 @@ Section R2.
       rewrite (p_money_print m [] Hm ends_nil). reflexivity.
   Qed.
 End R2.
+
+(* ---------- whole lines ---------- *)
+Section R3.
+  Context (vc : text -> bool).
+
+  Definition wf_op (o : dop) : Prop :=
+    match o with
+    | DBuy q p f | DSell q p f | DAccumulation q p f | DCapReturn q p f => dec_ok q = true /\ wf_money vc p /\ wf_money vc f
+    | DDividend tv tx => wf_money vc tv /\ wf_money vc tx
+    | DSplit r | DUnsplit r => dec_ok r = true
+    end.
+  Definition wf_txn (t : dtxn) : Prop := wf_date (x_date t) /\ wf_tick (x_tick t) /\ wf_op (x_op t).
+
+  Lemma tok_kw kw : kw <> [] -> forallb is_upper kw = true -> tok kw /\ no_lower kw.
+  Proof.
+    intros Hne H. split.
+    - apply tok_alnum; [exact Hne|]. apply forallb_forall. intros c Hc. apply upper_alnum. exact (proj1 (forallb_forall _ _) H c Hc).
+    - unfold no_lower. apply forallb_forall. intros c Hc. apply negb_true_iff. apply upper_not_lower. exact (proj1 (forallb_forall _ _) H c Hc).
+  Qed.
+  Lemma kwf kw : kw <> [] -> forallb is_upper kw = true -> tok kw. Proof. intros. apply tok_kw; assumption. Qed.
+  Lemma kwl kw : kw <> [] -> forallb is_upper kw = true -> no_lower kw. Proof. intros. apply tok_kw; assumption. Qed.
+  Lemma tok_at : tok AT /\ no_lower AT.
+  Proof. split; [exists (ch 64), []; repeat split|reflexivity]. Qed.
+  Lemma tok_tick t : wf_tick t -> tok t.
+  Proof. intros (Hne & Ha & _). apply tok_alnum; assumption. Qed.
+
+  Ltac kw_facts := first [discriminate | reflexivity].
+
+  Lemma p_trade_print mk t q p f : wf_tick t -> dec_ok q = true -> wf_money vc p -> wf_money vc f ->
+    p_trade vc mk (SP ++ t ++ SP ++ print_dec q ++ SP ++ AT ++ SP ++ print_dec (m_amt p) ++ SP ++ m_cur p ++ opt_flat KW_FEES f)
+    = POk (t, mk q p (norm_money f)) None [].
+  Proof.
+    intros Ht Hq Hp Hf. unfold p_trade.
+    rewrite (skip_sp_tok t _ (tok_tick t Ht)), (p_ticker_print t _ Ht (ends_sp _)).
+    rewrite (skip_sp_tok _ _ (print_dec_tok q (dec_ok_mant q Hq))), (p_decimal_print q _ Hq (ends_sp _)).
+    rewrite (skip_sp_tok AT _ (proj1 tok_at)), (p_kw_money_print vc AT p _ (proj2 tok_at) Hp (ends_opt_flat _ _)).
+    rewrite (p_opt_print vc KW_FEES f (kwl KW_FEES ltac:(discriminate) eq_refl) (kwf KW_FEES ltac:(discriminate) eq_refl) Hf).
+    reflexivity.
+  Qed.
+
+  Lemma p_event_print mk okw t q p f : okw <> [] -> forallb is_upper okw = true ->
+    wf_tick t -> dec_ok q = true -> wf_money vc p -> wf_money vc f ->
+    p_event vc mk okw (SP ++ t ++ SP ++ print_dec q ++ SP ++ KW_TOTAL ++ SP ++ print_dec (m_amt p) ++ SP ++ m_cur p ++ opt_flat okw f)
+    = POk (t, mk q p (norm_money f)) None [].
+  Proof.
+    intros Hne Hup Ht Hq Hp Hf. unfold p_event.
+    rewrite (skip_sp_tok t _ (tok_tick t Ht)), (p_ticker_print t _ Ht (ends_sp _)).
+    rewrite (skip_sp_tok _ _ (print_dec_tok q (dec_ok_mant q Hq))), (p_decimal_print q _ Hq (ends_sp _)).
+    rewrite (skip_sp_tok KW_TOTAL _ (kwf KW_TOTAL ltac:(discriminate) eq_refl)).
+    rewrite (p_kw_money_print vc KW_TOTAL p _ (kwl KW_TOTAL ltac:(discriminate) eq_refl) Hp (ends_opt_flat _ _)).
+    rewrite (p_opt_print vc okw f (kwl okw Hne Hup) (kwf okw Hne Hup) Hf).
+    reflexivity.
+  Qed.
+
+  Lemma p_dividend_print t p f : wf_tick t -> wf_money vc p -> wf_money vc f ->
+    p_dividend vc (SP ++ t ++ SP ++ KW_TOTAL ++ SP ++ print_dec (m_amt p) ++ SP ++ m_cur p ++ opt_flat KW_TAX f)
+    = POk (t, DDividend p (norm_money f)) None [].
+  Proof.
+    intros Ht Hp Hf. unfold p_dividend.
+    rewrite (skip_sp_tok t _ (tok_tick t Ht)), (p_ticker_print t _ Ht (ends_sp _)).
+    rewrite (skip_sp_tok KW_TOTAL _ (kwf KW_TOTAL ltac:(discriminate) eq_refl)).
+    rewrite (p_kw_money_print vc KW_TOTAL p _ (kwl KW_TOTAL ltac:(discriminate) eq_refl) Hp (ends_opt_flat _ _)).
+    rewrite (p_opt_print vc KW_TAX f (kwl KW_TAX ltac:(discriminate) eq_refl) (kwf KW_TAX ltac:(discriminate) eq_refl) Hf).
+    reflexivity.
+  Qed.
+
+  Lemma p_split_print mk t r : wf_tick t -> dec_ok r = true ->
+    p_split mk (SP ++ t ++ SP ++ KW_RATIO ++ SP ++ print_dec r) = POk (t, mk r) None [].
+  Proof.
+    intros Ht Hr. unfold p_split.
+    rewrite (skip_sp_tok t _ (tok_tick t Ht)), (p_ticker_print t _ Ht (ends_sp _)).
+    rewrite (skip_sp_tok KW_RATIO _ (kwf KW_RATIO ltac:(discriminate) eq_refl)), (kw_prefix_app KW_RATIO _ (kwl KW_RATIO ltac:(discriminate) eq_refl)).
+    replace (print_dec r) with (print_dec r ++ []) by apply app_nil_r.
+    rewrite (skip_sp_tok _ _ (print_dec_tok r (dec_ok_mant r Hr))), (p_decimal_print r [] Hr ends_nil).
+    reflexivity.
+  Qed.
+End R3.
+
+Section R4.
+  Context (vc : text -> bool).
+
+  Definition cmd_flat (tk : text) (o : dop) : text :=
+    match o with
+    | DBuy q p f => KW_BUY ++ (SP ++ tk ++ SP ++ print_dec q ++ SP ++ AT ++ SP ++ print_dec (m_amt p) ++ SP ++ m_cur p ++ opt_flat KW_FEES f)
+    | DSell q p f => KW_SELL ++ (SP ++ tk ++ SP ++ print_dec q ++ SP ++ AT ++ SP ++ print_dec (m_amt p) ++ SP ++ m_cur p ++ opt_flat KW_FEES f)
+    | DDividend p f => KW_DIVIDEND ++ (SP ++ tk ++ SP ++ KW_TOTAL ++ SP ++ print_dec (m_amt p) ++ SP ++ m_cur p ++ opt_flat KW_TAX f)
+    | DAccumulation q p f => KW_ACCUMULATION ++ (SP ++ tk ++ SP ++ print_dec q ++ SP ++ KW_TOTAL ++ SP ++ print_dec (m_amt p) ++ SP ++ m_cur p ++ opt_flat KW_TAX f)
+    | DCapReturn q p f => KW_CAPRETURN ++ (SP ++ tk ++ SP ++ print_dec q ++ SP ++ KW_TOTAL ++ SP ++ print_dec (m_amt p) ++ SP ++ m_cur p ++ opt_flat KW_FEES f)
+    | DSplit r => KW_SPLIT ++ (SP ++ tk ++ SP ++ KW_RATIO ++ SP ++ print_dec r)
+    | DUnsplit r => KW_UNSPLIT ++ (SP ++ tk ++ SP ++ KW_RATIO ++ SP ++ print_dec r)
+    end.
+
+  Lemma print_txn_flat t : print_txn t = print_date (x_date t) ++ SP ++ cmd_flat (x_tick t) (x_op t).
+  Proof.
+    unfold print_txn, cmd_flat, print_money. destruct (x_op t); rewrite ?opt_clause_flat; repeat rewrite <- app_assoc; reflexivity.
+  Qed.
+
+  Ltac kwstep :=
+    match goal with
+    | |- context [kw_prefix ?k (?k ++ ?b)] => rewrite (kw_prefix_app k b) by reflexivity
+    | |- context [kw_prefix ?k (?k' ++ ?b)] => replace (kw_prefix k (k' ++ b)) with (@None text) by reflexivity
+    end.
+
+  Lemma p_command_flat tk o : wf_tick tk -> wf_op vc o -> p_command vc (cmd_flat tk o) = POk (tk, norm_op o) None [].
+  Proof.
+    intros Ht Ho. destruct o as [q p f|q p f|p f|q p f|q p f|r|r]; cbn [wf_op] in Ho; unfold cmd_flat, p_command; repeat kwstep; cbn [norm_op].
+    - destruct Ho as (Hq & Hp & Hf). apply p_trade_print; assumption.
+    - destruct Ho as (Hq & Hp & Hf). apply p_trade_print; assumption.
+    - destruct Ho as (Hp & Hf). apply p_dividend_print; assumption.
+    - destruct Ho as (Hq & Hp & Hf). apply p_event_print; try assumption; [discriminate|reflexivity].
+    - destruct Ho as (Hq & Hp & Hf). apply p_event_print; try assumption; [discriminate|reflexivity].
+    - apply p_split_print; assumption.
+    - apply p_split_print; assumption.
+  Qed.
+
+  Lemma tok_app t b : tok t -> tok (t ++ b).
+  Proof. intros (c & r & -> & H). exists c, (r ++ b). split; [reflexivity|exact H]. Qed.
+  Lemma tok_cmd tk o : tok (cmd_flat tk o).
+  Proof. destruct o; unfold cmd_flat; apply tok_app; apply kwf; first [discriminate|reflexivity]. Qed.
+
+  Lemma parse_line_eq seg s : skip seg = s -> s <> [] ->
+    parse_line vc seg = match p_date s with
+                        | PFail => LFail
+                        | POk d e1 r => match p_command vc (skip r) with
+                                        | PFail => LFail
+                                        | POk (t, o) e2 r' => match skip r' with
+                                                              | [] => LTx {| x_date := d; x_tick := t; x_op := o |} (sem_or e1 e2)
+                                                              | _ => LFail end end end.
+  Proof. intros <- Hne. unfold parse_line. destruct (skip seg); [congruence|reflexivity]. Qed.
+
+  Theorem parse_line_print t : wf_txn vc t -> parse_line vc (print_txn t) = LTx (norm_txn t) None.
+  Proof.
+    intros (Hd & Ht & Ho). rewrite print_txn_flat.
+    destruct (print_date_tok (x_date t) (proj2 Hd)) as (c & r & E & Hc).
+    destruct (alnum_not_blank c (digit_alnum c Hc)) as (A & B & _).
+    assert (Htok : tok (print_date (x_date t))) by (exists c, r; repeat split; assumption).
+    rewrite (parse_line_eq _ _ (skip_tok _ _ Htok)); [|rewrite E; discriminate].
+    rewrite (p_date_print (x_date t) _ Hd).
+    replace (cmd_flat (x_tick t) (x_op t)) with (cmd_flat (x_tick t) (x_op t) ++ []) by apply app_nil_r.
+    rewrite (skip_sp_tok _ [] (tok_cmd _ _)), app_nil_r.
+    rewrite (p_command_flat _ _ Ht Ho), skip_nil. reflexivity.
+  Qed.
+End R4.
+
+(* ---------- whole files ---------- *)
+Lemma no_nl_app a b : no_nl a -> no_nl b -> no_nl (a ++ b).
+Proof. unfold no_nl. intros Ha Hb. rewrite forallb_app, Ha, Hb. reflexivity. Qed.
+Lemma no_nl_of (p : ascii -> bool) s : (forall c, p c = true -> is_nl c = false) -> forallb p s = true -> no_nl s.
+Proof.
+  intros Hp H. unfold no_nl. apply forallb_forall. intros c Hc. apply negb_true_iff. apply Hp.
+  exact (proj1 (forallb_forall _ _) H c Hc).
+Qed.
+Lemma alnum_not_nl c : is_alnum c = true -> is_nl c = false.
+Proof. intros H. apply (alnum_not_blank c H). Qed.
+Lemma no_nl_digits s : forallb is_digit s = true -> no_nl s.
+Proof. apply no_nl_of. intros c H. apply alnum_not_nl, digit_alnum, H. Qed.
+
+Lemma no_nl_print_dec d : d_mant d < two96 -> no_nl (print_dec d).
+Proof.
+  intros Hm. destruct (dec_digits_spec d Hm) as (Hdig & _ & _). unfold print_dec. fold (dec_digits d).
+  destruct (Nat.eqb (d_scale d) 0); [apply no_nl_digits; exact Hdig|].
+  apply no_nl_app; [apply no_nl_digits, forallb_firstn, Hdig|]. apply no_nl_app; [reflexivity|apply no_nl_digits, forallb_skipn, Hdig].
+Qed.
+Lemma no_nl_print_date d : (0 <= dy d <= 9999)%Z -> (1 <= dm d <= 12)%Z -> (1 <= dd d <= 31)%Z -> no_nl (print_date d).
+Proof.
+  intros Hy Hm Hd. unfold print_date, four_digits, two_digits.
+  set (y := Z.to_N (dy d)). set (m := Z.to_N (dm d)). set (a := Z.to_N (dd d)).
+  assert (y < 10000) by (unfold y; lia). assert (m < 100) by (unfold m; lia). assert (a < 100) by (unfold a; lia).
+  assert (D : forall x, x < 10 -> is_nl (ch (48 + x)) = false) by (intros x Hx; apply alnum_not_nl, digit_alnum, dig, Hx).
+  unfold no_nl. cbn [app forallb]. rewrite !D by (first [apply mod10_lt | lia]). reflexivity.
+Qed.
+
+Section R5.
+  Context (vc : text -> bool).
+
+  Lemma no_nl_cur c : wf_cur vc c -> no_nl c.
+  Proof.
+    intros (a & b & e & -> & Ua & Ub & Ue & _). unfold no_nl. cbn [forallb].
+    rewrite (alnum_not_nl a (upper_alnum a Ua)), (alnum_not_nl b (upper_alnum b Ub)), (alnum_not_nl e (upper_alnum e Ue)). reflexivity.
+  Qed.
+  Lemma no_nl_money_flat m rest : wf_money vc m -> no_nl rest -> no_nl (print_dec (m_amt m) ++ SP ++ m_cur m ++ rest).
+  Proof.
+    intros [Hd Hc] Hr. apply no_nl_app; [apply no_nl_print_dec, dec_ok_mant, Hd|]. apply no_nl_app; [reflexivity|].
+    apply no_nl_app; [apply no_nl_cur, Hc|exact Hr].
+  Qed.
+  Lemma no_nl_opt kw m : no_nl kw -> wf_money vc m -> no_nl (opt_flat kw m).
+  Proof.
+    intros Hk Hm. unfold opt_flat. destruct (is_zero_money m); [reflexivity|].
+    apply no_nl_app; [reflexivity|]. apply no_nl_app; [exact Hk|]. apply no_nl_app; [reflexivity|].
+    replace (m_cur m) with (m_cur m ++ []) by apply app_nil_r. apply no_nl_money_flat; [exact Hm|reflexivity].
+  Qed.
+  Lemma no_nl_tick t : wf_tick t -> no_nl t.
+  Proof. intros (_ & Ha & _). exact (no_nl_of is_alnum t alnum_not_nl Ha). Qed.
+
+  Lemma no_nl_print_txn t : wf_txn vc t -> no_nl (print_txn t).
+  Proof.
+    intros ((Hv & Hy) & Ht & Ho). rewrite print_txn_flat.
+    pose proof Hv as Hv'. unfold valid_date in Hv'. repeat (apply andb_true_iff in Hv'; destruct Hv' as [Hv' ?]).
+    pose proof (days_in_month_le (dy (x_date t)) (dm (x_date t))).
+    apply no_nl_app; [apply no_nl_print_date; lia|]. apply no_nl_app; [reflexivity|].
+    pose proof (no_nl_tick _ Ht) as Htk.
+    destruct (x_op t) as [q p f|q p f|p f|q p f|q p f|r|r]; cbn [wf_op] in Ho; unfold cmd_flat;
+      repeat first [ apply no_nl_app; [reflexivity|] | apply no_nl_app; [exact Htk|] ].
+    - destruct Ho as (Hq & Hp & Hf). apply no_nl_app; [apply no_nl_print_dec, dec_ok_mant, Hq|].
+      repeat (apply no_nl_app; [reflexivity|]). apply no_nl_money_flat; [exact Hp|apply no_nl_opt; [reflexivity|exact Hf]].
+    - destruct Ho as (Hq & Hp & Hf). apply no_nl_app; [apply no_nl_print_dec, dec_ok_mant, Hq|].
+      repeat (apply no_nl_app; [reflexivity|]). apply no_nl_money_flat; [exact Hp|apply no_nl_opt; [reflexivity|exact Hf]].
+    - destruct Ho as (Hp & Hf). apply no_nl_money_flat; [exact Hp|apply no_nl_opt; [reflexivity|exact Hf]].
+    - destruct Ho as (Hq & Hp & Hf). apply no_nl_app; [apply no_nl_print_dec, dec_ok_mant, Hq|].
+      repeat (apply no_nl_app; [reflexivity|]). apply no_nl_money_flat; [exact Hp|apply no_nl_opt; [reflexivity|exact Hf]].
+    - destruct Ho as (Hq & Hp & Hf). apply no_nl_app; [apply no_nl_print_dec, dec_ok_mant, Hq|].
+      repeat (apply no_nl_app; [reflexivity|]). apply no_nl_money_flat; [exact Hp|apply no_nl_opt; [reflexivity|exact Hf]].
+    - apply no_nl_print_dec, dec_ok_mant, Ho.
+    - apply no_nl_print_dec, dec_ok_mant, Ho.
+  Qed.
+
+  Lemma split_one l : no_nl l -> split_lines [] l = [l].
+  Proof.
+    intros H. replace l with (l ++ []) at 1 by apply app_nil_r. rewrite split_lines_seg by exact H.
+    cbn [split_lines]. rewrite app_nil_r, rev_involutive. reflexivity.
+  Qed.
+  Lemma split_join ls : Forall no_nl ls -> ls <> [] -> split_lines [] (join_lines ls) = ls.
+  Proof.
+    induction ls as [|l r IH]; intros H Hne; [congruence|].
+    inversion H as [|x xs Hl Hr]; subst. destruct r as [|l2 r2]; cbn [join_lines]; [apply split_one; exact Hl|].
+    change [ch 10] with LF. rewrite split_lines_LF by exact Hl. f_equal. apply IH; [exact Hr|discriminate].
+  Qed.
+
+  Lemma collect_all n ts : collect n (map (fun t => LTx (norm_txn t) None) ts) = inr (map norm_txn ts).
+  Proof. revert n. induction ts as [|t r IH]; intros n; cbn [map collect]; [reflexivity|]. rewrite IH. reflexivity. Qed.
+  Lemma first_fail_all n ts : first_fail n (map (fun t => LTx (norm_txn t) None) ts) = None.
+  Proof. revert n. induction ts as [|t r IH]; intros n; cbn [map first_fail]; [reflexivity|apply IH]. Qed.
+
+  (* Reading what the writer wrote returns the transactions, for every list of well-formed transactions of any length. *)
+  Theorem parse_print ts : Forall (wf_txn vc) ts -> parse vc (print_txns ts) = inr (map norm_txn ts).
+  Proof.
+    intros H. destruct ts as [|t0 r0] eqn:Ets; [reflexivity|]. rewrite <- Ets in *. assert (Hne : ts <> []) by (rewrite Ets; discriminate).
+    unfold parse, print_txns.
+    rewrite split_join; [| |intros E; apply map_eq_nil in E; contradiction].
+    2:{ apply Forall_forall. intros l Hl. apply in_map_iff in Hl. destruct Hl as (t & <- & Ht).
+        apply no_nl_print_txn. exact (proj1 (Forall_forall _ _) H t Ht). }
+    rewrite map_map.
+    rewrite (map_ext_in (fun t => parse_line vc (print_txn t)) (fun t => LTx (norm_txn t) None)).
+    2:{ intros t Ht. apply parse_line_print. exact (proj1 (Forall_forall _ _) H t Ht). }
+    rewrite first_fail_all, collect_all. reflexivity.
+  Qed.
+End R5.
